@@ -557,8 +557,9 @@ def check_fig_name(ctx):
                 node.targets[0], ast.Subscript) and 'plots' in txt(
                     node.targets[0].value):
             keyed = (txt(node.targets[0].slice), txt(node.value))
-    items_ok = any(isinstance(n, ast.comprehension) and 'self.plots.items()'
-                   in txt(n.iter) and isinstance(n.target, ast.Tuple) and
+    items_ok = any(isinstance(n, (ast.comprehension, ast.For)) and
+                   'self.plots.items()' in txt(n.iter) and isinstance(
+                       n.target, ast.Tuple) and
                    txt(n.target.elts[0]) in wr_vals
                    for n in ast.walk(write.node)) if wr else False
     ctx.decide('FIG-NAME', fres, f'plots[{keyed[0] if keyed else "?"}] = '
@@ -617,6 +618,17 @@ def check_fig_all(ctx):
             defs.setdefault(node.targets[0].id, []).append(node.value)
     items = [name for name, vals in defs.items()
              if any('self.plots' in txt(v) for v in vals)]
+    # or filled by a loop over the plots: `for fp, plot in
+    # self.plots.items(): items.append(...)`
+    for loop in [n for n in walk_local(write.node)
+                 if isinstance(n, ast.For) and 'self.plots' in txt(n.iter)]:
+        skipping = any(isinstance(n, (ast.Continue, ast.Break))
+                       for n in ast.walk(loop))
+        for call in ast.walk(loop):
+            if isinstance(call, ast.Call) and call_name(call) == 'append' \
+                    and isinstance(receiver(call), ast.Name) and \
+                    not skipping and receiver(call).id not in items:
+                items.append(receiver(call).id)
     n = 0
     for call in [c for c in ast.walk(write.node) if isinstance(c, ast.Call)]:
         cname = call_name(call)
